@@ -86,6 +86,11 @@ CHECKS = {
         text="Round trip and purity are decided per observed call; histories interleave several schemas and option sets and repeat keys so that state leaking between calls becomes visible.",
         note="Descriptions restricted to lines the printer does not re-wrap (statement); empty description = no description.",
         design="4/C12"),
+    "C15": dict(
+        technique="differential monitor on introspection answers: the data returned for introspection_query() and focused __type queries under four configurations is compared with a rendering of the schema IR (R-INTROSPECT); every reported defaultValue is parsed and coerced back through R-COERCE; disable_introspection runs are checked for leaks and for undisturbed ordinary fields",
+        text="Each observed introspection answer is decided against the generating IR: kinds, members in order, interfaces / possible types as sets, directives, roots, deprecation visibility and default values as GraphQL syntax.",
+        note="String defaults with special characters are a listed known finding (format pinned by the repository's test).",
+        design="4/C15"),
 }
 
 PENDING_REASON = "check not built yet in this session (planned: see DESIGN.md section 4); no claim is made"
